@@ -54,10 +54,49 @@ func main() {
 	decode := flag.String("decode", "", "decode a CodeGeneratorResponse file")
 	root := flag.String("root", "", "root to write decoded files under")
 	write := flag.String("write", "1", "write decoded files")
+	dump := flag.Bool("dump", false, "with -decode: print file contents as JSON instead of writing them")
+	regen := flag.String("regenerate", "", "rewrite file_to_generate of a request file (prints the new request to stdout)")
+	gens := flag.String("generate", "", "comma separated file_to_generate for -regenerate")
 	origReq := flag.String("orig-requests", "", "write requests that regenerate the checked-in packages as they are (dir)")
 	flag.Parse()
 	if *origReq != "" {
 		doOrigRequests(*origReq)
+		return
+	}
+	if *regen != "" {
+		b, err := os.ReadFile(*regen)
+		if err != nil {
+			panic(err)
+		}
+		var req pluginpb.CodeGeneratorRequest
+		if err := proto.Unmarshal(b, &req); err != nil {
+			panic(err)
+		}
+		req.FileToGenerate = strings.Split(*gens, ",")
+		out, _ := proto.Marshal(&req)
+		os.Stdout.Write(out)
+		return
+	}
+	if *decode != "" && *dump {
+		b, err := os.ReadFile(*decode)
+		if err != nil {
+			panic(err)
+		}
+		var resp pluginpb.CodeGeneratorResponse
+		if err := proto.Unmarshal(b, &resp); err != nil {
+			fmt.Fprintln(os.Stderr, "response does not parse:", err)
+			os.Exit(1)
+		}
+		type fc struct {
+			Name    string `json:"name"`
+			Content string `json:"content"`
+		}
+		var fs []fc
+		for _, f := range resp.File {
+			fs = append(fs, fc{f.GetName(), f.GetContent()})
+		}
+		o, _ := json.Marshal(map[string]interface{}{"files": fs, "error": resp.GetError()})
+		os.Stdout.Write(o)
 		return
 	}
 	if *decode != "" {
